@@ -86,8 +86,26 @@ def check_tags(out, facts, S, D):
         exp = encoder_tags(ew, st)
         if not alts:
             if exp is not None and any(e[0] == 'rb' for e in its):
+                # not a `match byte {..}`: decide the accepted set by evaluating the conditions for every byte value
                 n += 1
-                out.fail('R03.1', 'tag dispatch of %s [%s]' % (i['self'], cfg), 'the encoder writes tag bytes %s but the decoder does not dispatch on the byte it reads' % sorted(exp), fn['loc'])
+                rb_i = [k_ for k_, e in enumerate(its) if e[0] == 'rb'][0]
+                uid = its[rb_i][1]
+                rest = sym.cat(*its[rb_i + 1:])
+                acc = set()
+                undecided = False
+                for b in range(256):
+                    evs_, st_ = trace(rest, lambda x, b=b: b if strip(x) == ('byte', uid) else None)
+                    if st_ == 'AMBIG':
+                        undecided = True
+                        break
+                    if st_ != 'ERR':
+                        acc.add(b)
+                key = 'tag dispatch of %s [%s]' % (i['self'], cfg)
+                if undecided:
+                    out.fail('R03.1', key, 'the encoder writes tag bytes %s but the decoder does not dispatch on the byte it reads in a decidable way' % sorted(exp), fn['loc'])
+                else:
+                    out.ob('R03.1', key, acc == exp, 'decoder accepts tag bytes %s, the encoder writes %s' % (sorted(acc)[:12], sorted(exp)), fn['loc'],
+                           sample={'accepted': sorted(acc)[:12], 'encoder_tags': sorted(exp)})
             continue
         for a in alts:
             n += 1
@@ -135,6 +153,44 @@ def _boundary_guard(out, rule, key, t, leaf_of, threshold_ok, loc, what):
     out.ob(rule, key, not why, '; '.join(why[:3]), loc)
 
 
+def _validated_result(t, v, fname, path_part, arg_s, good):
+    """the function returns Ok(payload of `fname(decoded)`) and fails when that call yields its other variant, in any of
+    the usual spellings: `f(x).ok_or_else(..)` / `.map_err(..)` / `match f(x) { Some(v) => Ok(v), None => Err(..) }` / `?`"""
+    cand = []
+
+    def is_call(x):
+        return isinstance(x, tuple) and len(x) > 3 and x[0] == 'call' and x[1] == fname and path_part in str(x[2]) and x[3] and sym.vstr(x[3][0]) == arg_s
+    contains(v, lambda x: (cand.append(x) or False) if is_call(x) else False)
+    for e in sym.walk(t):
+        if e[0] == 'alt' and is_call(strip(e[1])):
+            cand.append(strip(e[1]))
+        if e[0] == 'CHECK' and is_call(strip(e[2])):
+            cand.append(strip(e[2]))
+    if not cand:
+        return False
+    V = sym.vstr(cand[0])
+    sv = sym.vstr(v)
+    # (a) ok_or / ok_or_else / ? on the call: an error is produced for the other variant, the payload is returned
+    if any(e[0] == 'CHECK' and sym.vstr(strip(e[2])) == V for e in events(t)) and sv == 'Ok(unwrap(%s))' % V:
+        return True
+    # (b) the Result of the call itself is returned with its error mapped
+    if sv == V and good == 'Ok':
+        return True
+    # (d) the payload of the good variant is what is returned and there is no other successful exit: the other variant
+    #     can only have left through an error (a match the evaluator already folded into a propagation)
+    if sv == 'Ok(%s.%s.0)' % (V, good) and not any(e[0] == 'RET' for e in events(t)) and any(e[0] == '?' for e in events(t)):
+        return True
+    # (c) explicit match / if-let on the call
+    for e in sym.walk(t):
+        if e[0] == 'alt' and sym.vstr(strip(e[1])) == V:
+            bad_arms = [x for d, x in e[2] if not (isinstance(d, tuple) and len(d) > 1 and str(d[1]).startswith(good))]
+            good_arms = [x for d, x in e[2] if isinstance(d, tuple) and len(d) > 1 and str(d[1]).startswith(good)]
+            if good_arms and bad_arms and all(sym._ends_err(x) for x in bad_arms) and not any(sym._ends_err(x) for x in good_arms):
+                if sv in ('Ok(%s.%s.0)' % (V, good), 'Ok(unwrap(%s))' % V) or ('%s.%s.0' % (V, good)) in sv:
+                    return True
+    return False
+
+
 def check_guards(out, facts, S, D):
     cfg = facts.cfg
     # NonZero
@@ -146,16 +202,13 @@ def check_guards(out, facts, S, D):
             fn = D.method(i, 'decode')
             t, v = D.term(fn)
             key = 'NonZero zero check %s [%s]' % (i['self'], cfg)
-            chk = [e for e in events(t) if e[0] == 'CHECK']
             decs = [e for e in events(t) if e[0] == 'dec']
-            ok = len(chk) == 1 and len(decs) == 1
-            if ok:
-                recv = strip(chk[0][2])
-                ok = isinstance(recv, tuple) and recv[0] == 'call' and recv[1] == 'new' and 'NonZero' in recv[2] and \
-                    sym.vstr(recv[3][0]) == 'decoded#%s:%s' % (decs[0][2], decs[0][1])
-                ok = ok and sym.vstr(v) == 'Ok(unwrap(%s))' % sym.vstr(recv)
+            ok = len(decs) == 1 and _validated_result(t, v, 'new', 'NonZero', 'decoded#%s:%s' % (decs[0][2], decs[0][1]), 'Some') if decs else False
             names = set()
             contains(v, lambda x: names.add(x[1]) or False if (isinstance(x, tuple) and len(x) > 2 and x[0] == 'call') else False)
+            for e_ in events(t):
+                if e_[0] in ('OWN', 'ALLOC', 'MUTCALL'):
+                    names.add(e_[1])
             ok = ok and 'new_unchecked' not in names
             out.ob('R03.2', key, ok, 'not `Self::new(decoded).ok_or_else(..)`: %s -> %s' % (sym.tstr(t), sym.vstr(v)), fn['loc'])
     out.floor('R03.2', 'NonZero decoders [%s]' % cfg, nz, 10)
@@ -163,10 +216,11 @@ def check_guards(out, facts, S, D):
     fn = facts.impl_method('Decode', 'alloc::string::String', 'decode')
     if fn:
         t, v, _ = wire.infer_decoder_fn(facts, fn)
-        sv = strip(v)
         decs = [e for e in events(t) if e[0] == 'dec']
-        ok = isinstance(sv, tuple) and sv[0] == 'call' and sv[1] == 'from_utf8' and 'string::String' in sv[2] and decs and \
-            sym.vstr(sv[3][0]) == 'decoded#%s:alloc::vec::Vec<u8>' % decs[0][2]
+        ok = bool(decs) and _validated_result(t, v, 'from_utf8', 'string::String', 'decoded#%s:alloc::vec::Vec<u8>' % decs[0][2], 'Ok')
+        unchecked = []
+        contains(v, lambda x: unchecked.append(x[1]) or False if (isinstance(x, tuple) and len(x) > 2 and x[0] == 'call' and 'unchecked' in str(x[1])) else False)
+        ok = ok and not unchecked and not any(e_[0] in ('OWN', 'ALLOC', 'MUTCALL') and 'unchecked' in str(e_[1]) for e_ in events(t))
         out.ob('R03.2', 'String utf-8 check [%s]' % cfg, bool(ok), 'String is not built by String::from_utf8(decoded bytes) with the error mapped: ' + sym.vstr(v), fn['loc'])
     else:
         out.fail('R03.2', 'String utf-8 check [%s]' % cfg, 'decoder not found', '-')
